@@ -132,7 +132,7 @@ MCInit ==
 
 \* the initial state of the tour modes: a write transaction with table "a" open and empty
 TourInit ==
-  /\ hist = <<EmptyDb>> /\ dur = 1 /\ inflight = <<>> /\ readers = EmptyFn /\ eph = EmptyFn
+  /\ hist = <<EmptyDb>> /\ dur = 1 /\ inflight = <<>> /\ readers = EmptyFn /\ rpend = EmptyFn /\ eph = EmptyFn
   /\ nextOrd = 1 /\ its = EmptyFn /\ latch = "ok"
   /\ wtx = [on |-> TRUE,
             t |-> ("a" :> NewTable(IF Mode = "table" THEN "t" ELSE "m", "K", "V")),
